@@ -53,9 +53,116 @@ type convInput struct {
 	Note      string
 	Diff      int
 	PosFix    int
-	StartDate string // "" or YYYY-MM-DD
-	Predict   int    // 0 nil, 1 linear
+	StartDate string // "" or YYYY-MM-DD or RFC3339 (any zone offset, any time of day)
+	Predict   int    // 0 nil, 1 linear, 2.. other gonum predictors (see newPredictor)
 	Kind      string
+	Warm      *convInput `json:",omitempty"` // a session converted first with the SAME converter value (history)
+}
+
+func (in *convInput) startTime() (time.Time, bool) {
+	if in.StartDate == "" {
+		return time.Time{}, false
+	}
+	if t, err := time.Parse("2006-01-02", in.StartDate); err == nil {
+		return t, true
+	}
+	t, err := time.Parse(time.RFC3339, in.StartDate)
+	if err != nil {
+		panic("bad start date " + in.StartDate)
+	}
+	return t, true
+}
+
+func newPredictor(k int) interp.FittablePredictor {
+	switch k {
+	case 1:
+		return &interp.PiecewiseLinear{}
+	case 2:
+		return &interp.AkimaSpline{}
+	case 3:
+		return &interp.FritschButland{}
+	case 4:
+		return &interp.NaturalCubic{}
+	case 5:
+		return &interp.PiecewiseConstant{}
+	case 6:
+		return &interp.NotAKnotCubic{}
+	}
+	return nil
+}
+
+// predictorOracle: what Session.PredictOBD is specified to compute for a non-default predictor,
+// from the harness's own pass over the rows: the knots, every channel's fresh readings, every
+// query x, and for each (channel, query) the value of a FRESH predictor fitted on that channel.
+func (in *convInput) predictorOracle() (string, bool) {
+	if in.Predict < 2 {
+		return "[]", true
+	}
+	var start time.Time
+	var xs []float64
+	var ys [][]float64
+	var queries []float64
+	s := in.session()
+	for _, l := range s.Laps {
+		for _, r := range l.Records {
+			switch {
+			case r.OBD != nil && r.OBD.Update:
+				if start.IsZero() {
+					start = r.Time
+					xs = append(xs, 0)
+				} else {
+					xs = append(xs, r.Time.Sub(start).Seconds())
+				}
+				var vals []float64
+				for _, p := range []*float64{r.OBD.Speed, r.OBD.EngineSpeed, r.OBD.Throttle, r.OBD.CoolantTemp, r.OBD.IntakeTemp, r.OBD.ManifoldPressure} {
+					if p != nil {
+						vals = append(vals, *p)
+					}
+				}
+				if ys == nil {
+					ys = make([][]float64, len(vals))
+				}
+				for i, v := range vals {
+					if i < len(ys) {
+						ys[i] = append(ys[i], v)
+					}
+				}
+			case r.GPS.Update && r.OBD != nil:
+				queries = append(queries, r.Time.Sub(start).Seconds())
+			}
+		}
+	}
+	if len(queries) == 0 || len(xs) < 2 {
+		return "[]", true
+	}
+	var rows []string
+	for _, y := range ys {
+		if len(y) != len(xs) {
+			return "[]", false
+		}
+		var vals []float64
+		_, _ = Guard(func() {
+			p := newPredictor(in.Predict)
+			if p.Fit(xs, y) != nil {
+				return
+			}
+			for _, q := range queries {
+				vals = append(vals, p.Predict(q))
+			}
+		})
+		if len(vals) != len(queries) {
+			// this predictor cannot be fitted on this series (e.g. too few points): not "fittable" here
+			return "[]", false
+		}
+		yl := make([]string, len(y))
+		for i, v := range y {
+			yl[i] = CoqF64(v)
+		}
+		for i, q := range queries {
+			rows = append(rows, fmt.Sprintf("(%s, %s, %s)", zlist(yl), CoqF64(q), CoqF64(vals[i])))
+		}
+	}
+	return zlist(rows), true
 }
 
 func (in *convInput) session() *trackaddict.Session {
@@ -98,15 +205,13 @@ func (in *convInput) session() *trackaddict.Session {
 func (in *convInput) options() []convert.Option {
 	o := []convert.Option{convert.TrackOpt(in.Track), convert.VehicleOpt(in.OVehicle), convert.TagsOpt(in.Tags...), convert.NoteOpt(in.Note),
 		convert.DifferentialOpt(laptimer.DifferentialStatus(in.Diff)), convert.PositionOpt(laptimer.PositionFixing(in.PosFix))}
-	if in.StartDate != "" {
-		t, _ := time.Parse("2006-01-02", in.StartDate)
+	if t, ok := in.startTime(); ok {
 		o = append(o, convert.StartDateOpt(t))
 	}
-	switch in.Predict {
-	case 0:
+	if in.Predict == 0 {
 		o = append(o, convert.PredictorOpt(nil))
-	case 1:
-		o = append(o, convert.PredictorOpt(&interp.PiecewiseLinear{}))
+	} else {
+		o = append(o, convert.PredictorOpt(newPredictor(in.Predict)))
 	}
 	return o
 }
@@ -172,8 +277,7 @@ func (in *convInput) coqOpts() string {
 		tags[i] = CoqStr(t)
 	}
 	start := "None"
-	if in.StartDate != "" {
-		t, _ := time.Parse("2006-01-02", in.StartDate)
+	if t, ok := in.startTime(); ok {
 		start = "(Some " + CoqZ(t.UnixNano()) + ")"
 	}
 	return fmt.Sprintf("(mkCOpts %s %s %s %s %d%%Z %d%%Z %s %s)", CoqStr(in.Track), CoqStr(in.OVehicle), zlist(tags), CoqStr(in.Note), in.Diff, in.PosFix, start, CoqNat(in.Predict))
@@ -236,6 +340,10 @@ func runConvert(in *convInput) (class int, detail string, db *laptimer.DB) {
 				err = e
 				return
 			}
+			if in.Warm != nil {
+				// history: the same converter value has already converted another session
+				_, _ = ta.LapTimer(in.Warm.session())
+			}
 			db, err = ta.LapTimer(in.session())
 		})
 	}()
@@ -254,6 +362,10 @@ func runConvert(in *convInput) (class int, detail string, db *laptimer.DB) {
 }
 
 func addConvCase(ctx *Ctx, in *convInput, tags ...string) {
+	table, fittable := in.predictorOracle()
+	if !fittable {
+		return
+	}
 	class, detail, db := runConvert(in)
 	dump := "[]"
 	nfix, nlaps := 0, 0
@@ -264,7 +376,7 @@ func addConvCase(ctx *Ctx, in *convInput, tags ...string) {
 			nfix += len(l.Recording.Fixes)
 		}
 	}
-	coq := fmt.Sprintf("(mkCase %s %s %s %s %s %s)", in.coqOpts(), CoqStr(in.Vehicle), in.coqLaps(), in.geodOracle(), CoqNat(class), dump)
+	coq := fmt.Sprintf("(mkCase %s %s %s %s %s %s %s)", in.coqOpts(), CoqStr(in.Vehicle), in.coqLaps(), in.geodOracle(), table, CoqNat(class), dump)
 	b, _ := json.Marshal(in)
 	ctx.Add(Case{Coq: coq, Input: in, Obs: map[string]any{"class": class, "detail": detail, "laps": nlaps, "fixes": nfix}, Key: string(b),
 		Trivial: len(in.Laps) < 3, Tags: append([]string{"kind:" + in.Kind, fmt.Sprintf("class:%d", class), fmt.Sprintf("laps:%d", len(in.Laps))}, tags...)})
@@ -377,7 +489,16 @@ func runC03(ctx *Ctx) error {
 		if r.Chance(0.2) {
 			in.StartDate = fmt.Sprintf("20%02d-%02d-%02d", r.Intn(60), 1+r.Intn(12), 1+r.Intn(28))
 		}
-		addConvCase(ctx, in)
+		tag := "history:fresh-converter"
+		if r.Chance(0.25) {
+			// the converter has converted another session (other vehicle, dates, OBD) before this one
+			w := &convInput{Kind: "warm"}
+			w.Vehicle = Pick(r, []string{"Other Car", "", "2019 McLaren 720S"})
+			w.Laps = genSession(r, 3+r.Intn(3), 6, 1553983971000+int64(r.Intn(1e9)), r.Intn(3), randPattern(r), 0)
+			in.Warm = w
+			tag = "history:reused-converter"
+		}
+		addConvCase(ctx, in, tag)
 	}
 	return nil
 }
@@ -393,11 +514,18 @@ func runC11(ctx *Ctx) error {
 		in := &convInput{Kind: "obd", Predict: 1}
 		if r.Chance(0.2) {
 			in.Predict = 0
+		} else if r.Chance(0.35) {
+			in.Predict = 2 + r.Intn(5)
 		}
 		genConvOpts(r, in)
 		mode := Pick(r, []int{2, 2, 2, 2, 1, 0}) // 2: OBD with updates, 1: OBD never updated, 0: no OBD columns
 		in.Laps = genSession(r, 3+r.Intn(3), 2+r.Intn(9), 1653983971000, mode, randPattern(r), 0)
-		addConvCase(ctx, in, fmt.Sprintf("obdmode:%d", mode), fmt.Sprintf("predict:%d", in.Predict))
+		if r.Chance(0.15) {
+			w := &convInput{Kind: "warm"}
+			w.Laps = genSession(r, 3+r.Intn(2), 6, 1553983971000, 2, randPattern(r), 0)
+			in.Warm = w
+		}
+		addConvCase(ctx, in, fmt.Sprintf("obdmode:%d", mode), fmt.Sprintf("predict:%d", in.Predict), fmt.Sprintf("reused-converter:%v", in.Warm != nil))
 	}
 	return nil
 }
@@ -431,7 +559,25 @@ func runC12(ctx *Ctx) error {
 		in3 := *in
 		in3.StartDate = Pick(r, []string{base.Format("2006-01-02"), base.AddDate(0, 0, 1).Format("2006-01-02"), base.AddDate(0, 0, -1).Format("2006-01-02"),
 			fmt.Sprintf("%04d-%02d-%02d", 1970+r.Intn(98), 1+r.Intn(12), 1+r.Intn(28))})
-		addConvCase(ctx, &in3, "start:"+map[bool]string{true: "logged-day", false: "other"}[in3.StartDate == base.Format("2006-01-02")])
+		ztag := "startzone:utc"
+		if r.Chance(0.4) {
+			// a start date that is a midnight (or any instant) in another zone: still one instant D
+			d, _ := time.Parse("2006-01-02", in3.StartDate)
+			off := Pick(r, []int{7200, -18000, 19800, 50400, -39600, 3600})
+			loc := time.FixedZone("Z", off)
+			tt := time.Date(d.Year(), d.Month(), d.Day(), 0, 0, 0, 0, loc)
+			if r.Chance(0.3) {
+				tt = tt.Add(time.Duration(r.Intn(86400)) * time.Second)
+			}
+			in3.StartDate = tt.Format(time.RFC3339)
+			ztag = "startzone:offset"
+		}
+		if r.Chance(0.15) {
+			w := &convInput{Kind: "warm"}
+			w.Laps = genSession(r, 3+r.Intn(2), 4, t0-int64(86400000*(1+r.Intn(400))), 0, obdPattern{}, 0)
+			in3.Warm = w
+		}
+		addConvCase(ctx, &in3, "start:"+map[bool]string{true: "logged-day", false: "other"}[in3.StartDate == base.Format("2006-01-02")], ztag, fmt.Sprintf("reused-converter:%v", in3.Warm != nil))
 	}
 	_ = strings.ToUpper
 	return nil
